@@ -74,10 +74,11 @@ func (m *Engine) RunPending() {
 		return
 	}
 
-	// Resolve and run the command
-	command := m.resolve(pending)
-
-	command()
+	// Resolve and run the command: a bind naming
+	// a function that does not exist has none.
+	if command := m.resolve(pending); command != nil {
+		command()
+	}
 
 	// And adapt the local keymap.
 	if len(m.pending) == 0 && m.Local() == ViOpp {
